@@ -35,6 +35,7 @@ def run(item):
             q = subprocess.run(["/venv/bin/python", "-m", "mc.run", c, "--tier", "quick", "--workers", "4"], cwd="/verif", env=env, capture_output=True, text=True)
             kinds = sorted(set(re.findall(r"kind=(\S+)", q.stdout)))
             res.append((c, q.returncode, kinds))
+        print(f"{name}: {[(c, rc) for c, rc, _ in res]}", flush=True)
         return name, kind, tests, res
     finally:
         shutil.rmtree(dst, ignore_errors=True)
